@@ -54,10 +54,21 @@ func runC15(c *core.Ctx) {
 	name := typeName(long)
 	ntrials := 1 + t.Intn(4)
 	c.Logf("codec=%s mtu=%d trials=%d", opts, mtu, ntrials)
+	jumboA := (kind == kH264 || kind == kH264AVC) && t.Chance(1, 400)
+	if jumboA {
+		mtu, ntrials = 1200, 1
+		c.Probe("jumbo-frame-A")
+	}
+	first := true
 	payload := func() [][]byte {
 		var frags [][]byte
 		for try := 0; try < 4 && len(frags) == 0; try++ {
 			media := gen.next(t, mtu)
+			if jumboA && first {
+				// one fragmented unit of about 1 MiB: what an abandoned train leaves behind can be large
+				media = append([]byte{0, 0, 1, 0x65}, nalBody(t, 1<<20-2500+t.Intn(3000))...)
+			}
+			first = false
 			c.Guard("codecs."+kindNames[kind]+"Payloader.Payload", func() { frags = pay.Payload(uint16(mtu), media) })
 		}
 		return frags
@@ -88,40 +99,51 @@ func runC15(c *core.Ctx) {
 			garbage = 1 + t.Intn(5)
 			c.Probe("garbage-before")
 		}
-		var masks []uint64
+		// a loss pattern: for trains of up to 10 packets every subset (a bit mask); for longer trains a drawn
+		// strategy over the WHOLE train (lose the packet with the end marker, the first, a middle run, a random half)
+		type lossPattern struct {
+			mask         uint64 // n <= 10
+			kind, lo, hi int    // n > 10: kind 1 lose [lo,hi); kind 2 lose pseudo-random ~half (seeded by lo)
+		}
+		var masks []lossPattern
 		if n <= 10 {
 			for m := uint64(0); m < 1<<uint(n); m++ {
-				masks = append(masks, m)
+				masks = append(masks, lossPattern{mask: m})
 			}
 			c.Probe("exhaustive-trains")
 		} else {
 			c.Probe("sampled-trains")
-			full := ^uint64(0)
-			if n < 64 {
-				full = 1<<uint(n) - 1
+			nmask := 64
+			if n > 200 {
+				nmask = 12 // very long trains (jumbo frames): fewer patterns, each costs n calls
 			}
-			for k := 0; k < 64; k++ {
-				var m uint64
-				switch t.Weighted(2, 2, 2, 2) {
-				case 0: // lose the last packet (end marker) and maybe more
-					m = full &^ (1 << uint(minI(n, 64)-1))
+			for k := 0; k < nmask; k++ {
+				var lp lossPattern
+				switch t.Weighted(3, 2, 2, 2) {
+				case 0: // lose the last packet (end marker), maybe one more
+					lp = lossPattern{kind: 1, lo: n - 1, hi: n}
 					if t.Bool() {
-						m &^= 1 << uint(t.Intn(minI(n, 64)))
+						lp.lo = n - 1 - t.Intn(minI(n-1, 3))
 					}
 				case 1: // lose the first
-					m = full &^ 1
+					lp = lossPattern{kind: 1, lo: 0, hi: 1 + t.Intn(2)}
 				case 2: // lose a middle run
-					lo := t.Intn(minI(n, 64))
-					l := 1 + t.Intn(minI(n, 64)-lo)
-					m = full
-					for i := lo; i < lo+l; i++ {
-						m &^= 1 << uint(i)
-					}
+					lo := t.Intn(n)
+					lp = lossPattern{kind: 1, lo: lo, hi: lo + 1 + t.Intn(n-lo)}
 				case 3:
-					m = t.Draw(0) & full
+					lp = lossPattern{kind: 2, lo: int(t.Draw(1 << 30))}
 				}
-				masks = append(masks, m)
+				masks = append(masks, lp)
 			}
+		}
+		isLost := func(lp lossPattern, i int) bool {
+			switch lp.kind {
+			case 0:
+				return lp.mask>>uint(i)&1 == 0
+			case 1:
+				return i >= lp.lo && i < lp.hi
+			}
+			return core.Mix(uint64(lp.lo)^uint64(i)*0x9E3779B97F4A7C15)&1 == 0
 		}
 		c.Stats.Probes["subsets"] += int64(len(masks))
 		c.Stats.Probes["trains"]++
@@ -133,7 +155,7 @@ func runC15(c *core.Ctx) {
 			}
 			lost := 0
 			for i, p := range a {
-				if i < 64 && m>>uint(i)&1 == 0 {
+				if isLost(m, i) {
 					lost++
 					c.Stats.Faults["loss"]++
 					if i == n-1 {
@@ -151,9 +173,9 @@ func runC15(c *core.Ctx) {
 				c.Probe("garbage-between-frames")
 			}
 			if lost > 0 {
-				c.Fingerprint(uint64(kind), uint64(n), m, b2u(garbage > 0))
+				c.Fingerprint(uint64(kind), uint64(n), m.mask, uint64(m.kind), uint64(m.lo*16/(n+1)), uint64(m.hi*16/(n+1)), b2u(garbage > 0))
 			}
-			c.Ev("subset", uint64(n), m)
+			c.Ev("subset", uint64(n), m.mask, uint64(m.kind), uint64(m.lo), uint64(m.hi))
 			for i, p := range b {
 				p := append([]byte{}, p...)
 				var out []byte
@@ -163,13 +185,13 @@ func runC15(c *core.Ctx) {
 				}
 				if (err == nil) != (want[i].err == nil) {
 					c.Violate("resync", fmt.Sprintf("C15/differs-from-fresh/%s/error", name),
-						"after delivering subset %b of a %d-packet frame, packet %d of the next intact frame: long-lived err=%v, fresh err=%v", m, n, i, err, want[i].err)
+						"after delivering loss pattern %+v of a %d-packet frame, packet %d of the next intact frame: long-lived err=%v, fresh err=%v", m, n, i, err, want[i].err)
 					return
 				}
 				if err == nil && !bytes.Equal(out, want[i].out) {
 					what := "bytes"
 					c.Violate("resync", fmt.Sprintf("C15/differs-from-fresh/%s/%s", name, what),
-						"after delivering subset %b (garbage %d) of a %d-packet frame, packet %d/%d of the next intact frame decodes to %d bytes on the long-lived receiver, %d on a fresh one", m, garbage, n, i, len(b), len(out), len(want[i].out))
+						"after delivering loss pattern %+v (garbage %d) of a %d-packet frame, packet %d/%d of the next intact frame decodes to %d bytes on the long-lived receiver, %d on a fresh one", m, garbage, n, i, len(b), len(out), len(want[i].out))
 					return
 				}
 			}
